@@ -5,6 +5,7 @@
 package c02
 
 import (
+	"encoding/json"
 	"strings"
 
 	"github.com/invopop/gobl/l10n"
@@ -43,6 +44,11 @@ func Run(c *core.Ctx) int {
 		c.TieBroken("drive:C02/model", err.Error(), nil)
 		return c.Finish("", nil)
 	}
+	// every real output also goes through the Lean oracle Spec.C02.summaryOk (the statement of C02 as one
+	// executable function over the input document and its calculated output, proved of the model by
+	// Props.C02.tax_summary_spec)
+	var leanReqs []string
+	var leanDocs []*calcproto.Doc
 	for i, d := range docs {
 		r := res[i]
 		inv := d.Invoice()
@@ -91,6 +97,10 @@ func Run(c *core.Ctx) int {
 		if i%997 == 0 {
 			c.Sample(map[string]any{"doc": d, "go": r.GoOut})
 		}
+		if strings.HasPrefix(r.Req, "calc ") {
+			leanReqs = append(leanReqs, "summary "+strings.TrimPrefix(r.Req, "calc ")+" "+calcproto.EncodeOut(inv))
+			leanDocs = append(leanDocs, d)
+		}
 		if errs := calcproto.TaxSummaryOracle(inv, sub, rule == "currency", d.Includes); len(errs) > 0 {
 			c.Fail("", "tax summary: "+strings.Join(errs, "; "), c01.Case{Doc: d})
 			continue
@@ -99,5 +109,28 @@ func Run(c *core.Ctx) int {
 			c.TieBroken("drive:C02/calc", "Go output differs from the model although the summary oracle holds", c01.Case{Doc: d})
 		}
 	}
-	return c.Finish("random documents with 0-3 tax combos per row (ordinary and retained categories, explicit percentages, rate keys resolved by the regime, exempt combos, surcharges, extension-qualified combos, per-combo country overrides), zero and negative totals, with and without a tax-included category, both rules; non-trivial = more than one rate group; distinct by encoded document", nil)
+	verdicts, err := c.ModelProp("C02", leanReqs)
+	if err != nil {
+		c.TieBroken("drive:C02/oracle", err.Error(), nil)
+		return c.Finish("", nil)
+	}
+	noted := false
+	for k, v := range verdicts {
+		switch {
+		case v == "1":
+			c.Count("lean-oracle:summaryOk-holds", 1)
+		case strings.HasPrefix(v, "0"):
+			c.Count("lean-oracle:summaryOk-fails", 1)
+			if !noted {
+				// kept in the evidence even when the five printed violations are taken by the Go-side oracle
+				noted = true
+				js, _ := json.Marshal(leanDocs[k])
+				c.Note("first document refused by the Lean oracle Spec.C02.summaryOk (failing clauses:%s): %s", v[1:], js)
+			}
+			c.Fail("", "Spec.C02.summaryOk is false on the calculated document as the real code presents it; failing clauses:"+v[1:], c01.Case{Doc: leanDocs[k]})
+		default:
+			c.TieBroken("drive:C02/oracle", "the Lean driver did not understand the request: "+v, c01.Case{Doc: leanDocs[k]})
+		}
+	}
+	return c.Finish("random documents with 0-3 tax combos per row (ordinary and retained categories, explicit percentages, rate keys resolved by the regime, exempt combos, surcharges, extension-qualified combos, per-combo country overrides), zero and negative totals, with and without a tax-included category, both rules; judged by the Go-side oracle (math/big, with the stated rounding slack) and exactly by the Lean oracle Spec.C02.summaryOk on the encoded output; non-trivial = more than one rate group; distinct by encoded document", nil)
 }
